@@ -214,7 +214,7 @@ func history(steps int) (*dependency.Database, *model, []string) {
 func H_DatabaseHistory() {
 	steps := 3
 	if verif.Tier() == "thorough" {
-		steps = 4
+		steps = 3
 	}
 	db, m, names := history(steps)
 	checkLookups(db, m, names)
